@@ -12,7 +12,9 @@ Record src := {
   s_reg : option (N * N)       (* waker kept from its last Pending poll: re-pushes this (priority, key) *)
 }.
 
-Inductive polled := QSome (x : N) | QNone | QPending.
+(** QYield: the stream returned Pending AND the waker it was polled with has already fired (tokio's cooperative
+    budgeting does exactly that once a task's budget is used up; an I/O wake racing with the poll has the same effect) *)
+Inductive polled := QSome (x : N) | QNone | QPending | QYield.
 
 (** receiver program counter inside poll_next *)
 Inductive pc :=
@@ -42,12 +44,14 @@ Inductive label :=
 | LStart                                 (* the receiver calls poll_next *)
 | LR1                                    (* first critical section of one loop iteration *)
 | LR2                                    (* poll the checked-out stream, lock released *)
+| LR2Y                                   (* the same, but the stream yields: it wakes the waker it is polled with and returns Pending *)
 | LR3                                    (* second critical section *)
 | LWake (k : N) (consume : bool)         (* stream k's kept waker fires (consume: the registration is used up) *)
 | LInsert (k : N)
 | LRemove (k : N)
 | LArrive (k : N) (x : N)                (* environment: item x becomes available on stream k *)
-| LClose (k : N).
+| LClose (k : N)
+| LYield.                                (* marker inside a poll window: that stream poll is a yielding one (no effect by itself) *)
 
 Inductive event :=
 | EReady (k : N) (x : N)                 (* poll_next returns Ready(Some((k, x))) *)
@@ -126,6 +130,15 @@ Definition step (q : fq) (l : label) : fq * list event :=
       end
     | _ => (q, [])
     end
+  | LR2Y =>
+    match f_pc q with
+    | Out ev =>
+      (* cx.waker().wake_by_ref(): the event goes back on the heap, the receiver's waker is invoked (and taken) *)
+      let q1 := set_fq q (f_counter q) (heap_insert ev (f_heap q)) (f_streams q) (f_srcs q)
+                       (f_rwaker q) (Polled ev QYield) (f_parked q) (f_woken q) (f_wakes q) in
+      (wake_receiver q1 true, [])
+    | _ => (q, [])
+    end
   | LR3 =>
     match f_pc q with
     | Polled ev (QSome x) =>
@@ -135,15 +148,24 @@ Definition step (q : fq) (l : label) : fq * list event :=
       (set_fq q (f_counter q) (f_heap q) (f_streams q) (f_srcs q) (f_rwaker q) Loop (f_parked q) (f_woken q) (f_wakes q), [])
     | Polled ev QPending =>
       (set_fq q (f_counter q) (f_heap q) (f_streams q ++ [snd ev]) (f_srcs q) (f_rwaker q) Loop (f_parked q) (f_woken q) (f_wakes q), [])
+    | Polled ev QYield =>
+      (* the waker this poll used has fired: put the stream back and return Pending instead of looping *)
+      (set_fq q (f_counter q) (f_heap q) (f_streams q ++ [snd ev]) (f_srcs q) (f_rwaker q) Idle true (f_woken q) (f_wakes q), [EPending])
     | _ => (q, [])
     end
+  | LYield => (q, [])
   | LWake k consume =>
     let s := the_src q k in
     match s_reg s with
     | Some ev =>
+      (* if the registration that fires was made by the stream poll in progress, that poll's waker has fired *)
+      let pc' := match f_pc q with
+                 | Polled ev0 QPending => if snd ev0 =? k then Polled ev0 QYield else f_pc q
+                 | _ => f_pc q
+                 end in
       let q1 := set_fq q (f_counter q) (heap_insert ev (f_heap q)) (f_streams q)
                        (if consume then put_src k {| s_items := s_items s; s_closed := s_closed s; s_reg := None |} (f_srcs q) else f_srcs q)
-                       (f_rwaker q) (f_pc q) (f_parked q) (f_woken q) (f_wakes q) in
+                       (f_rwaker q) pc' (f_parked q) (f_woken q) (f_wakes q) in
       (wake_receiver q1 true, [])
     | None => (q, [])
     end
@@ -186,7 +208,8 @@ Fixpoint poll_loop (fuel : nat) (q : fq) (idx : nat) (window : list label) (nth_
     | Out _ =>
       (* the scripted stream runs the window events first, then answers *)
       let '(q0, e0) := if Nat.eqb nth_poll idx then run q window else (q, []) in
-      let '(q1, e1) := step q0 LR2 in
+      let yielding := Nat.eqb nth_poll idx && existsb (fun l => match l with LYield => true | _ => false end) window in
+      let '(q1, e1) := step q0 (if yielding then LR2Y else LR2) in
       let '(q2, e2, n2) := poll_loop f q1 idx window (S nth_poll) in (q2, e0 ++ e1 ++ e2, n2)
     | Polled _ _ => let '(q1, e1) := step q LR3 in
                     let '(q2, e2, n2) := poll_loop f q1 idx window nth_poll in (q2, e1 ++ e2, n2)
